@@ -155,6 +155,8 @@ pub fn walk_world(rep: &mut Rep, name: &str, walks: u64, steps: usize, mk: &dyn 
         w.size_mix = k % 2 == 1;
         // ... and gives every third publish rarely used options of boundary sizes (only where no Maximum Packet Size limits them)
         w.rich_pubs = k % 4 >= 2 && w.max_packet.is_none();
+        // ... and lets every second subscribe() carry three topic filters (only where no Maximum Packet Size limits them)
+        w.multi_filter = k % 3 != 0 && w.max_packet.is_none();
         // every third walk starts with the identifier counters at a boundary (hook H2); nothing has been allocated yet
         if k % 3 == 1 && w.m.is_empty() {
             let pids = [200u16, 250, 255, 256, 300, 0x7ff0, 0x7fff, 0xfff0, 65530, 65535];
